@@ -211,9 +211,46 @@ def _simple_arg(e):
 
 
 class Helper:
+    closure = False
+
     def __init__(self, module, node, cls, static):
         self.module, self.node, self.cls, self.static = module, node, cls, static
         self.name = node.name
+
+
+_PURE_EXPR_CALLS = {'len', 'isinstance', 'min', 'max', 'int', 'bool', 'getattr', 'hasattr', 'callable', 'type', 'abs', 'divmod', 'ord', 'chr'}
+
+
+def _pure_expr(e):
+    for n in ast.walk(e):
+        if isinstance(n, ast.Call):
+            if not (isinstance(n.func, ast.Name) and n.func.id in _PURE_EXPR_CALLS):
+                return False
+        elif isinstance(n, (ast.Lambda, ast.ListComp, ast.SetComp, ast.DictComp, ast.GeneratorExp, ast.NamedExpr, ast.Await, ast.Yield, ast.YieldFrom, ast.Starred)):
+            return False
+    return True
+
+
+def pure_helper(h):
+    """assigns locals and returns: no stores into objects, no calls but pure builtins"""
+    for n in ast.walk(h.node):
+        if isinstance(n, (ast.Attribute, ast.Subscript)) and isinstance(n.ctx, (ast.Store, ast.Del)):
+            return False
+        if isinstance(n, ast.Call) and not (isinstance(n.func, ast.Name) and n.func.id in _PURE_EXPR_CALLS):
+            return False
+        if isinstance(n, (ast.Raise, ast.Try, ast.With, ast.Delete, ast.Import, ast.ImportFrom)):
+            return False
+    return True
+
+
+def expression_helper(h):
+    """the returned expression if the helper is ``return <pure expression>`` and nothing else"""
+    body = h.node.body
+    if body and isinstance(body[0], ast.Expr) and isinstance(body[0].value, ast.Constant) and isinstance(body[0].value.value, str):
+        body = body[1:]
+    if len(body) == 1 and isinstance(body[0], ast.Return) and body[0].value is not None and _pure_expr(body[0].value):
+        return body[0].value
+    return None
 
 
 def find_helpers(repo):
@@ -252,7 +289,7 @@ def find_helpers(repo):
             else:
                 ok = False
         a = node.args
-        if not ok or a.vararg or a.kwarg:
+        if not ok or a.vararg:
             continue
         if any(not isinstance(dv, ast.Constant) for dv in list(a.defaults) + [k for k in a.kw_defaults if k is not None]):
             continue
@@ -353,6 +390,58 @@ class Inliner:
         self.expanded = []       # (caller id, helper name, lineno)
 
     # ------------------------------------------------------------------
+    def substitute_expression_helpers(self, fi):
+        """a helper that only computes a pure expression of its arguments can be replaced by that
+        expression at any position (conditional operands, loop tests, lambdas): evaluation order
+        does not matter for it"""
+        inl = self
+
+        class T(ast.NodeTransformer):
+            def visit_Call(self, n):
+                self.generic_visit(n)
+                r = inl.resolve(n)
+                if r is None:
+                    return n
+                h, recv = r
+                expr = expression_helper(h)
+                if expr is None:
+                    return n
+                a = h.node.args
+                params = [x.arg for x in a.posonlyargs + a.args]
+                pos = list(n.args)
+                if recv is not None:
+                    pos = [recv] + pos
+                elif h.cls is not None and not h.static:
+                    return n
+                if len(pos) > len(params) or a.kwonlyargs or a.kwarg is not None:
+                    return n
+                bound = dict(zip(params, pos))
+                for kw in n.keywords:
+                    if kw.arg in bound or kw.arg not in params:
+                        return n
+                    bound[kw.arg] = kw.value
+                defaults = dict(zip(params[len(params) - len(a.defaults):], a.defaults))
+                for p_ in params:
+                    if p_ not in bound:
+                        if p_ not in defaults:
+                            return n
+                        bound[p_] = defaults[p_]
+                if not all(_simple_arg(v) for v in bound.values()):
+                    return n
+                free = _names(expr, (ast.Load,)) - set(params)
+                if free & inl.caller_locals and not h.closure:
+                    return n
+                if h.module != inl.cur.module and not inl._same_globals(free, h.module):
+                    return n
+                new = _Rename(dict(bound)).visit(copy.deepcopy(expr))
+                for x in ast.walk(new):
+                    if not hasattr(x, '_inl'):
+                        x._inl = h.name
+                inl.expanded.append((inl.cur.id, h.name, getattr(n, 'lineno', 0)))
+                return ast.copy_location(new, n)
+
+        fi.node.body = [T().visit(s_) for s_ in fi.node.body]
+
     def run(self):
         for fi in list(self.repo.functions.values()):
             if not isinstance(fi.node, ast.FunctionDef):
@@ -366,13 +455,57 @@ class Inliner:
                     self.cur_self = first[0].arg
             self.caller_locals = _assigned(fi.node) | set(_params(fi.node))
             self.caller_names = _names(fi.node) | self.caller_locals | _comp_locals(fi.node)
+            self.local_helpers = self.find_local_helpers(fi)
+            self.substitute_expression_helpers(fi)
             fi.node.body = self.block(fi.node.body, 0)
             ast.fix_missing_locations(fi.node)
         return self
 
+    def find_local_helpers(self, fi):
+        """closures defined directly in the function body that are only ever called there"""
+        out = {}
+        defs = [s for s in fi.node.body if isinstance(s, ast.FunctionDef)]
+        if not defs:
+            return out
+        callee_ids = {id(n.func) for n in ast.walk(fi.node) if isinstance(n, ast.Call)}
+        for d in defs:
+            name = d.name
+            uses = [n for n in ast.walk(fi.node) if isinstance(n, ast.Name) and n.id == name]
+            if any(id(n) not in callee_ids or not isinstance(n.ctx, ast.Load) for n in uses):
+                continue
+            if sum(1 for n in ast.walk(fi.node) if isinstance(n, (ast.FunctionDef, ast.ClassDef)) and n.name == name) != 1:
+                continue
+            a = d.args
+            if d.decorator_list or a.vararg or a.kwarg:
+                continue
+            if any(not isinstance(dv, ast.Constant) for dv in list(a.defaults) + [k for k in a.kw_defaults if k is not None]):
+                continue
+            bad = False
+            for n in ast.walk(d):
+                if n is d:
+                    continue
+                if isinstance(n, (ast.Yield, ast.YieldFrom, ast.Await, ast.Global, ast.Nonlocal, ast.FunctionDef, ast.AsyncFunctionDef, ast.ClassDef, ast.NamedExpr)):
+                    bad = True
+                elif isinstance(n, ast.Call) and isinstance(n.func, ast.Name) and n.func.id == name:
+                    bad = True
+            if bad:
+                continue
+            try:
+                _check_returns(d.body)
+            except NotInlinable:
+                continue
+            h = Helper(fi.module, d, None, False)
+            h.closure = True
+            out[name] = h
+        return out
+
     def resolve(self, call):
         f = call.func
         h = None
+        if isinstance(f, ast.Name) and f.id in getattr(self, 'local_helpers', {}):
+            if not self._call_shape_ok(call, self.local_helpers[f.id]):
+                return None
+            return self.local_helpers[f.id], None
         if isinstance(f, ast.Name):
             h = self.helpers.get(f.id)
             if h is None or h.cls is not None or f.id in self.caller_locals:
@@ -398,9 +531,22 @@ class Inliner:
             return None
         if h.node is self.cur.node:
             return None
-        if any(isinstance(a, ast.Starred) for a in call.args) or any(k.arg is None for k in call.keywords):
+        if not self._call_shape_ok(call, h):
             return None
         return h, recv
+
+    @staticmethod
+    def _call_shape_ok(call, h):
+        if any(isinstance(a, ast.Starred) for a in call.args):
+            return False
+        stars = [k for k in call.keywords if k.arg is None]
+        if h.node.args.kwarg is None:
+            return not stars
+        # helper(..., **k): the call must forward exactly one simple mapping and name no extras
+        params = [x.arg for x in h.node.args.posonlyargs + h.node.args.args + h.node.args.kwonlyargs]
+        if any(k.arg is not None and k.arg not in params for k in call.keywords):
+            return False
+        return len(stars) <= 1 and all(isinstance(k.value, ast.Name) for k in stars)
 
     def _imported(self, name, module):
         tree = self.repo.modules[self.cur.module]['tree']
@@ -442,6 +588,8 @@ class Inliner:
         if call is None:
             return [s]
         h, recv = self.resolve(call)
+        if isinstance(s, ast.AugAssign) and not isinstance(s.target, ast.Name) and not pure_helper(h):
+            return [s]
         try:
             pre, new_s = self.expand(s, call, h, recv)
         except NotInlinable:
@@ -465,7 +613,8 @@ class Inliner:
         if isinstance(s, ast.AnnAssign):
             return [s.value] if s.value is not None else []
         if isinstance(s, ast.AugAssign):
-            return [s.value] if isinstance(s.target, ast.Name) else []
+            # target read first: harmless for a name; for x.attr only when the helper is pure
+            return [s.value] if isinstance(s.target, ast.Name) or _simple_arg(s.target) else []
         if isinstance(s, ast.If):
             return [s.test]
         if isinstance(s, ast.For):
@@ -496,11 +645,21 @@ class Inliner:
             raise NotInlinable('too many arguments')
         bound = dict(zip(params, pos))
         order = list(params[:len(pos)])
+        star_kw = None
         for kw in call.keywords:
+            if kw.arg is None:
+                star_kw = kw.value
+                continue
             if kw.arg in bound or kw.arg not in params + kwonly:
                 raise NotInlinable('keyword')
             bound[kw.arg] = kw.value
             order.append(kw.arg)
+        if a.kwarg is not None:
+            # **k of the helper is the mapping forwarded by the call (or an empty one)
+            bound[a.kwarg.arg] = star_kw if star_kw is not None else ast.Dict(keys=[], values=[])
+            order.append(a.kwarg.arg)
+        elif star_kw is not None:
+            raise NotInlinable('**mapping passed to a helper without **kwargs')
         defaults = dict(zip(params[len(params) - len(a.defaults):], a.defaults))
         for x, dv in zip(a.kwonlyargs, a.kw_defaults):
             if dv is not None:
@@ -513,19 +672,21 @@ class Inliner:
                 order.append(p)
         # free names of the helper keep their (module-level) meaning only if the caller has
         # no local of that name
-        locals_h = _assigned(node) | set(params + kwonly)
+        locals_h = _assigned(node) | set(params + kwonly) | ({a.kwarg.arg} if a.kwarg is not None else set())
         free = (_names(node, (ast.Load,)) - locals_h) - _comp_locals(node)
         if h.module != self.cur.module:
             # names of the helper's module must mean the same thing in the caller's module
             if not self._same_globals(free, h.module):
                 raise NotInlinable('module globals differ')
-        if free & self.caller_locals:
+        if free & self.caller_locals and not getattr(h, 'closure', False):
             raise NotInlinable('caller local shadows a global used by the helper')
         assigned_h = _assigned(node)
         mapping = {}
         binds = []
         for p in order:
             arg = bound[p]
+            if a.kwarg is not None and p == a.kwarg.arg and isinstance(arg, ast.Dict) and _mentions_kwarg_other_than_star(node, p):
+                raise NotInlinable('**kwargs used other than forwarded')
             if p not in assigned_h and _simple_arg(arg):
                 mapping[p] = arg
             else:
@@ -605,6 +766,11 @@ class Inliner:
             if here.get(n) is None or here.get(n) != there.get(n):
                 return False
         return True
+
+
+def _mentions_kwarg_other_than_star(node, name):
+    stars = {id(k.value) for n in ast.walk(node) if isinstance(n, ast.Call) for k in n.keywords if k.arg is None}
+    return any(isinstance(n, ast.Name) and n.id == name and id(n) not in stars for n in ast.walk(node))
 
 
 def _module_bindings(tree):
@@ -692,4 +858,15 @@ def inline_helpers(repo):
     inl = Inliner(repo).run()
     repo.inlined = inl.expanded
     repo.helpers = sorted(inl.helpers)
+    # helpers without any remaining call site: their code now lives in their callers
+    remaining = set()
+    for fi in repo.functions.values():
+        for n in ast.walk(fi.node):
+            if isinstance(n, ast.Call):
+                f = n.func
+                nm = f.id if isinstance(f, ast.Name) else f.attr if isinstance(f, ast.Attribute) else None
+                if nm in inl.helpers and not (fi.node is inl.helpers[nm].node):
+                    remaining.add(nm)
+    expanded = {h for _, h, _ in inl.expanded}
+    repo.absorbed = {h for h in inl.helpers if h in expanded and h not in remaining}
     return inl
